@@ -78,6 +78,40 @@ func realParseKinds(kinds []string) (evs []rev, errAt int, errText string) {
 	return evs, -1, ""
 }
 
+// hostileLexemes: the token KINDS decide; what a string, identifier or pattern happens to contain must not. Value tokens
+// get texts that look like punctuation, keywords or nothing at all.
+var hostileLexPool = []string{"(", "[", "{", "{{", ")", "]", "}", "}}", "|", ";", "=", "<", ">", "grammar", "@left", "", "start", "$", "/*", "//", "\""}
+
+func hostileLexemes(kinds []string, salt int) []string {
+	out := make([]string, len(kinds))
+	for i, k := range kinds {
+		switch k {
+		case "STRING", "IDENT", "TOKEN", "REGEX", "PREDEF":
+			out[i] = hostileLexPool[(i*7+salt*3+len(kinds))%len(hostileLexPool)]
+		default:
+			out[i] = k
+		}
+	}
+	return out
+}
+
+func realParseKindsLex(kinds, lex []string) (evs []rev, errAt int, errText string) {
+	p := &eparser.Parser{L: &fakeLexer{kinds: kinds, lex: lex}}
+	shifted := 0
+	err := p.Parse(func(t *lexer.Token) error {
+		evs = append(evs, rev{t.Pos.Offset, -1})
+		shifted++
+		return nil
+	}, func(i int) error {
+		evs = append(evs, rev{-1, i})
+		return nil
+	})
+	if err != nil {
+		return evs, shifted, err.Error()
+	}
+	return evs, -1, ""
+}
+
 func sameEvents(a, b []rev) bool {
 	if len(a) != len(b) {
 		return false
@@ -481,6 +515,34 @@ func c04CompareSeq(c *ctx, name string, seq []string) (refErr, realErr int) {
 		// the error is detected may legitimately differ: an LALR parser may reduce before it notices) -> tokens only
 		if !sameTokens(e1, e2) {
 			c.violate(violation{Case: name, Input: strings.Join(seq, " "), Observed: "tokens shifted before the error: " + fmtEvents(e2), Expected: fmtEvents(e1)})
+		}
+	}
+	// the same kinds with hostile lexemes: same verdict, same callbacks
+	if r1 == r2 && (r1 == -1 || c.res.Evaluations%3 == 0) {
+		hasValue := false
+		for _, k := range seq {
+			if k == "STRING" || k == "IDENT" || k == "TOKEN" || k == "REGEX" || k == "PREDEF" {
+				hasValue = true
+			}
+		}
+		if hasValue {
+			for salt := 0; salt < 2; salt++ {
+				lex := hostileLexemes(seq, salt+int(c.res.Evaluations%5))
+				var e3 []rev
+				var r3 int
+				var txt3 string
+				if pv, _ := safely(func() { e3, r3, txt3 = realParseKindsLex(seq, lex) }); pv != nil {
+					c.inconclusive("panic (C14's business)")
+					break
+				}
+				c.count("sequences_re_parsed_with_hostile_lexemes", 1)
+				if r3 != r2 || !sameEvents(e2, e3) {
+					c.violate(violation{Case: name + "/lexemes", Input: map[string]any{"token_kinds": strings.Join(seq, " "), "lexemes": lex},
+						Observed: fmt.Sprintf("with these lexemes: error position %d (%s), callbacks %s", r3, txt3, fmtEvents(e3)),
+						Expected: fmt.Sprintf("as with neutral lexemes: error position %d, callbacks %s (acceptance depends on the token kinds only)", r2, fmtEvents(e2))})
+					break
+				}
+			}
 		}
 	}
 	return r1, r2
